@@ -502,6 +502,20 @@ func (s *Sim) userActions() []Action {
 				add("user.canary-strategy "+def.Key()+" +", func() { e.Spec.Strategy.Canary = def.Strategy.Canary.Object(); s.Store.ForceUpdate(e) })
 			}
 		}
+		if cfg.PodTplEdits {
+			k := objKey{KPodTpl, def.NS, def.Name}
+			if _, err := s.Store.Get(KPodTpl, def.NS, def.Name); err == nil {
+				add("user.delete-podtemplate "+def.Key(), func() { s.Store.Remove(k) })
+			} else {
+				// a PodTemplate of that name made by somebody else (no owner, no hash, another template)
+				add("user.create-podtemplate "+def.Key(), func() {
+					_, _ = s.Store.CreateObj(&corev1.PodTemplate{
+						ObjectMeta: metav1.ObjectMeta{Namespace: def.NS, Name: def.Name, Labels: map[string]string{"made-by": "somebody-else"}},
+						Template:   corev1.PodTemplateSpec{Spec: corev1.PodSpec{Containers: []corev1.Container{{Name: "main", Image: "foreign:1"}}}},
+					})
+				})
+			}
+		}
 		if cfg.LabelEdits {
 			for _, v := range []string{"1.0", "1.1"} {
 				v := v
